@@ -7,7 +7,7 @@ import Driver.Util
 import Driver.PyJson
 import Driver.C01
 import Driver.C02
-import Driver.C03
+import Driver.C03Handle
 import Driver.C04
 import Driver.C05
 import Driver.C06
